@@ -167,7 +167,7 @@ class BlockData:
             self.remove(filtered_blocks)
         elif isinstance(filtered_blocks, list):
             for b in filtered_blocks:
-                if isinstance(b, Block) and b != self.__root:
+                if isinstance(b, Block) and b is not self.__root:
                     self.remove(b)
 
     @property
